@@ -4,7 +4,7 @@ from core import Corr, Fail, REPO
 from props import waterlib
 from props.waterlib import fl, fls, b
 
-PROP_FILES = ["Prop_C09", "Prop_C09b"]
+PROP_FILES = ["Prop_C09", "Prop_C09b", "Prop_C09c"]
 # Coq-Interval (lg_bound in CropNProofs) is taken as compiled by coqchk: re-checking its stack exceeds 50 minutes
 COQCHK_ADMIT = ["Interval.Tactic"]
 RULE = ("PhytoOut transitions (state before/after the call in sub-step 1) of traced in-process runs of generated crop "
@@ -551,7 +551,7 @@ def obs_record(d):
                fls(d["o_pe"]), fl(d["o_nfix"])))
 
 
-HDR = ["From Coq Require Import ZArith List Bool Floats.", "From Hermes Require Import Num CropModel CropNModel C09Corr.",
+HDR = ["From Coq Require Import ZArith List Bool Floats.", "From Hermes Require Import Num CropModel CropNModel DevModel C09Corr.",
        "Import ListNotations.", "Open Scope float_scope."]
 GROUPS = ["stage", "REDUK", "organs", "pool/biomass", "root-depth", "N-uptake", "bookkeeping", "GEHOB/WUGEH", "N-content-functions"]
 
@@ -578,6 +578,53 @@ def eval_cases(ctx, corr, days, shard=40):
                                     "crop": d["crop"], "zeit": d["zeit"], "line": d["line"], "kinds": d["kinds"],
                                     "case": {k: v for k, v in d.items() if k in ("k0", "o_k", "worg", "o_worg", "lai", "o_lai", "o_reduk", "o_wurz", "qrez", "gtw")}})
     corr.cases += len(recs)
+
+
+def dev_correspond(ctx, corr, days, shard=400):
+    """development-rate block (DevModel): FV / vernalisation days, FP, devprog, potential rooting depth of every emitted grown day"""
+    pts = [d for d in days if d["grown"] and "d_vt0" in d]
+    recs = ["{| dvo_temp := %s; dvo_vt0 := %s; dvo_dt := %s; dvo_vschwell := %s; dvo_dlp := %s; dvo_dayl := %s; dvo_dlbas := %s; dvo_nons := %s; "
+            "dvo_reduk := %s; dvo_trrel := %s; dvo_dry := %s; dvo_lured := %s; dvo_p := %s; dvo_o_vt := %s; dvo_o_fv := %s; dvo_o_fp := %s; "
+            "dvo_o_devprog := %s; dvo_o_pot := %s |}"
+            % (fl(d["temp"]), fl(d["d_vt0"]), fl(d["dt"]), fl(d["d_vschwell"]), fl(d["d_dlp"]), fl(d["d_dayl"]), fl(d["d_dlbas"]), b(d["d_nons"]),
+               fl(d["reduk0"]), fl(d["d_trrel"]), fl(d["d_dry"]), fl(d["d_lured"]), fl(d["d_p"]), fl(d["d_o_vt"]), fl(d["d_o_fv"]), fl(d["d_o_fp"]),
+               fl(d["devprog"]), fl(d["d_o_pot"])) for d in pts]
+    items = []
+    for k in range(0, len(recs), shard):
+        body = HDR + ["Definition cases : list dev_obs := [\n%s\n]." % ";\n".join(recs[k:k + shard]),
+                      "Definition M := Eval vm_compute in dev_mismatches %d%%nat cases." % k, "Print M."]
+        items.append(("Cases_c09dev_%d" % (k // shard), "\n".join(body) + "\n"))
+    names = ["vernalisation-days/FV", "FP", "devprog", "potential-rooting-depth"]
+    for nm, rc2, o in ctx.coq_eval_many(items, timeout=900):
+        m = re.search(r"M\s*=\s*(.*?)\s*:\s*list \(nat \* nat\)", o, re.S)
+        if rc2 != 0 or not m:
+            corr.mismatches.append({"kind": "coq-eval", "shard": nm, "output": o[-1500:]})
+            continue
+        pairs = re.findall(r"\(\s*(\d+)(?:%nat)?\s*,\s*(\d+)(?:%nat)?\s*\)", m.group(1))
+        if m.group(1).strip() != "[]" and not pairs:
+            corr.mismatches.append({"kind": "coq-eval", "shard": nm, "output": o[-1500:]})
+        for idx, mask in pairs[:10]:
+            d = pts[int(idx)]
+            corr.mismatches.append({"kind": "development-rate-kernel", "differs": [n for j, n in enumerate(names) if int(mask) >> j & 1],
+                                    "crop": d["crop"], "zeit": d["zeit"], "line": d["line"],
+                                    "case": {k: d[k] for k in ("temp", "d_vt0", "d_vschwell", "d_dlp", "d_dayl", "d_dlbas", "d_o_vt", "d_o_fv", "d_o_fp", "devprog", "d_o_pot")}})
+    corr.cases += len(recs)
+    corr.dist["development-rate-days"] = len(recs)
+    # the tie must reach the interesting branches: a vernalising stage, a day-length sensitive stage (long- and short-day), a stress acceleration
+    def hv(s):
+        try:
+            return float.fromhex(s)
+        except ValueError:
+            return float("nan")
+    corr.dist["development-rate:vernalising-stage"] = sum(1 for d in pts if hv(d["d_vschwell"]) != 0)
+    corr.dist["development-rate:FV-inside-0-1"] = sum(1 for d in pts if 0 < hv(d["d_o_fv"]) < 1)
+    corr.dist["development-rate:long-day-stage"] = sum(1 for d in pts if hv(d["d_dayl"]) > 0)
+    corr.dist["development-rate:short-day-stage"] = sum(1 for d in pts if hv(d["d_dayl"]) < 0)
+    corr.dist["development-rate:FP-inside-0-1"] = sum(1 for d in pts if 0 < hv(d["d_o_fp"]) < 1)
+    corr.dist["development-rate:accelerated"] = sum(1 for d in pts if hv(d["devprog"]) > 1)
+    for need in ("vernalising-stage", "FV-inside-0-1", "long-day-stage", "FP-inside-0-1", "accelerated"):
+        if pts and not corr.dist["development-rate:" + need]:
+            corr.mismatches.append({"kind": "coverage", "what": "no traced day for the development-rate case " + need})
 
 
 def dl_run(ctx):
@@ -646,6 +693,7 @@ def correspond(ctx):
             c.mismatches.append({"kind": x["k"], "what": x})
     days = [x for x in cases if x["k"] == "day"]
     eval_cases(ctx, c, days)
+    dev_correspond(ctx, c, days)
     seen = set()
     for d in days:
         c.bump("crop=" + d["crop"])
